@@ -4,6 +4,7 @@ import (
 	"encoding/json"
 	"flag"
 	"fmt"
+	"strings"
 	"time"
 
 	"github.com/yaricom/goNEAT/v4/neat"
@@ -103,6 +104,28 @@ func marksLeft(net *network.Network) []int {
 	return left
 }
 
+// otherOperations exercises the rest of the public Network API on the network between two depth queries
+func otherOperations(net *network.Network, round int) {
+	nodes := net.BaseNodes()
+	for _, a := range nodes {
+		for _, b := range nodes {
+			count := 0
+			net.IsRecurrent(a, b, &count, len(nodes)*len(nodes)+5)
+		}
+	}
+	if round%2 == 0 {
+		in := make([]float64, 0)
+		for _, n := range nodes {
+			if n.IsSensor() {
+				in = append(in, 1.0)
+			}
+		}
+		_ = net.LoadSensors(in)
+		_, _ = net.ForwardSteps(2)
+		_, _ = net.Flush()
+	}
+}
+
 func replayDepth(args []string) int {
 	fs := flag.NewFlagSet("replay-depth", flag.ExitOnError)
 	cases := fs.String("cases", "", "NDJSON behaviours printed by MC_Depth")
@@ -124,6 +147,10 @@ func replayDepth(args []string) int {
 			rep.Nontrivial++
 		}
 		nets := map[string]*network.Network{"direct": c.direct()}
+		// the same network with OTHER operations of the public API between the depth queries (recurrence checks on every
+		// node pair - as add-link makes them on the phenotype -, sensor loads, activation, flush): the depth of a network does
+		// not depend on what else was asked of it
+		nets["direct, other operations interleaved"] = c.direct()
 		if gn, err := c.viaGenome(); err != nil {
 			rep.fail(map[string]interface{}{"case": json.RawMessage(append([]byte(nil), line...)),
 				"what": "Genesis failed: " + err.Error(), "signature": "depth genesis"})
@@ -169,6 +196,12 @@ func replayDepth(args []string) int {
 				for qi, q := range c.Queries {
 					var r int
 					var qerr error
+					if strings.HasSuffix(name, "interleaved") {
+						if p := guard(func() { otherOperations(net, qi) }); p != "" {
+							bad += fmt.Sprintf("operations between the queries panicked: %s; ", p)
+							return
+						}
+					}
 					if p := guard(func() {
 						if q.Cap == 0 && qi%2 == 1 {
 							r, qerr = net.MaxActivationDepth() // the uncapped public entry point
@@ -190,13 +223,17 @@ func replayDepth(args []string) int {
 						// networks with cycles: the statement asks for termination, a depth in 0..number of nodes, the cap law
 						// relative to the UNCAPPED answer (taken from a fresh twin network) and stable answers; the depth the
 						// specification's transcription of the search arrives at is information only
-						wantR, wantErr := fresh[name], false
-						if q.Cap > 0 && fresh[name] > q.Cap {
+						fkey := name
+						if strings.HasPrefix(name, "direct") {
+							fkey = "direct"
+						}
+						wantR, wantErr := fresh[fkey], false
+						if q.Cap > 0 && fresh[fkey] > q.Cap {
 							wantR, wantErr = q.Cap, true
 						}
 						if r != wantR || (qerr != nil) != wantErr {
 							bad += fmt.Sprintf("query %d (cap %d) returned (%d, err=%v) on a network whose uncapped depth (fresh instance) is %d: the cap law / repeat stability gives (%d, err=%v); ",
-								qi, q.Cap, r, qerr != nil, fresh[name], wantR, wantErr)
+								qi, q.Cap, r, qerr != nil, fresh[fkey], wantR, wantErr)
 						}
 						if r < 0 || r > nNodes {
 							bad += fmt.Sprintf("query %d (cap %d) returned depth %d outside 0..%d (number of nodes); ", qi, q.Cap, r, nNodes)
